@@ -19,6 +19,8 @@ open XmppModel XmppModel.Xml
 def decOp (s : String) : Option Op :=
   if s == "r" then some .read
   else if s.startsWith "w" then (decToks (s.drop 1).toString).map .write
+  -- written through Encode / EncodeElement (the digit names the kind of value): same tokens
+  else if s.startsWith "v" then (decToks (s.drop 2).toString).map .write
   else none
 
 def decRet (s : String) : Option Ret :=
@@ -30,16 +32,21 @@ def decRet (s : String) : Option Ret :=
   else if s == "wrapstanza" then some .wrapStanza else if s == "wrapstream" then some .wrapStream
   else if s == "joineof" then some .joinEof else none
 
+/-- flags right after the return value: `c` = closes the output first, `df` / `dp` = sets a
+close deadline in the future / in the past first -/
+def decFlags : List String → Bool × Nat × List String
+  | "c" :: r => let x := decFlags r; (true, x.2.1, x.2.2)
+  | "df" :: r => let x := decFlags r; (x.1, 1, x.2.2)
+  | "dp" :: r => let x := decFlags r; (x.1, 2, x.2.2)
+  | r => (false, 0, r)
+
 def decProg (s : String) : Option Prog :=
   match s.splitOn "," with
-  | r :: "c" :: ops => do
+  | r :: rest => do
     let r ← decRet r
-    let ops ← mapM? decOp ops
-    pure { ops := ops, ret := r, close := true }
-  | r :: ops => do
-    let r ← decRet r
-    let ops ← mapM? decOp ops
-    pure { ops := ops, ret := r }
+    let fl := decFlags rest
+    let ops ← mapM? decOp fl.2.2
+    pure { ops := ops, ret := r, close := fl.1, dl := fl.2.1 }
   | [] => none
 
 def decProgs (s : String) : Option (List Prog) :=
